@@ -19,7 +19,7 @@ type c13Case struct {
 }
 
 var c13Strings = []string{
-	"1.0", " 1", "1 ", "+1", "-0", "-1", "1e3", "1.", ".5", "0", "00", "01", "2147483647", "2147483648", "-2147483648", "-2147483649", "1.5", "-1.5", "+1.5", "1,5", "0.0", "1.00",
+	"1.0", " 1", "1 ", "+1", "-0", "-1", "1e3", "1E3", "1e-3", "2e47483647", "1.", ".5", "0", "00", "01", "2147483647", "2147483648", "-2147483648", "-2147483649", "1.5", "-1.5", "+1.5", "1,5", "0.0", "1.00",
 	"T", "t", "yes", "Y", "TRUE", "True", "true", "false", "F", "no", "N", "2", "1.0.0", "tru",
 	"2020", "2020-13-01", "2020-02-30", "2020-02-29", "2021-02-29", "2020-1-1", "2020-01", "2020-01-01T", "2020-01-01T10", "2020-01-01T10:00", "2020-01-01T10:00:00", "2020-01-01T10:00:00.5", "2020-01-01T10:00:00.500", "2020-01-01T10:00:00Z", "2020-01-01T10:00:00+05:30", "2020-01-01T25:00:00", "2020-01-01 10:00:00", "@2020-01-01", "2020T",
 	"24:00", "10", "10:00", "10:00:00", "10:00:00.5", "10:00:00.500", "T10:00:00", "@T10:00:00", "10:60", "1:00", "10:00:00Z",
@@ -175,10 +175,7 @@ func c13Table(v Val, t string) string {
 			if reDec.MatchString(s) {
 				return "yes"
 			}
-			if u := strings.TrimLeft(s, "+-"); strings.ContainsAny(s, "eE") || strings.HasPrefix(u, ".") || strings.HasSuffix(u, ".") {
-				return "" // lexically close: relational laws only
-			}
-			return "no"
+			return "no" // N1 §5.5.4: only (\+|-)?\d+(\.\d+)? is convertible; '1e3', '.5', '1.' are not
 		case "Boolean":
 			switch strings.ToLower(s) {
 			case "true", "t", "yes", "y", "1", "1.0", "false", "f", "no", "n", "0", "0.0":
@@ -386,7 +383,7 @@ func c13Run(ctx *Ctx, c c13Case) {
 func TestC13(t *testing.T) {
 	r := newRec("C13",
 		"exhaustive: every item of the value pool (every System type, precision and boundary; FHIR primitive and complex elements) and a list of valid/near-valid string renderings × the eight targets {Boolean, Integer, Decimal, String, Date, DateTime, Time, Quantity}, each through %x.toT(), %x.convertsToT(), %x.toT().toT(), %x.toT() is System.T and (x of type T) %x.toString().toT() = %x; plus rapid-mutated strings (0..2 edits of a valid rendering, or random strings over the lexical alphabet); non-trivial = the item is not already of type T, or is a string; distinct = FNV-64 of (item, target)",
-		"the conversion table (N1 §5.5) is asserted only where unambiguous: identity, type-level rows, canonical string renderings, lexically foreign strings; near-valid strings ('+1', ' 1', '1e3', 'T10:00') are checked by the relational laws only")
+		"the conversion table (N1 §5.5) is asserted only where unambiguous: identity, type-level rows, canonical string renderings, lexically foreign strings; String→Integer and String→Decimal follow the N1 regular expressions exactly (so '1e3', '.5', '1.' are not convertible); near-valid DateTime/Time/Quantity strings ('T10:00', '5 mg') are checked by the relational laws only")
 	runProperty(t, r,
 		Stage[c13Case]{Name: "pool", Enum: c13Enum, Run: c13Run},
 		Stage[c13Case]{Name: "strings", Gen: c13Gen, Run: c13Run, N: pick(5000, 150000)},
